@@ -154,6 +154,24 @@ theorem c03_independent (resp custom resp' custom' : List Tp) (tp' : Tp) (ev : E
     · simp [hm]
   rw [this]
 
+/-- **a tracepoint that cannot be matched is isolated** — a method tracepoint without a method name on a file whose
+    source is not available (`at_location` raises on every event of that file) never acts, is never "here", and
+    — wherever it stands in the response or among the registered tracepoints — changes nothing for the others:
+    at every event (also the events of its own file, where its check raises) the actions that run are, as a
+    multiset, exactly those that run without it. -/
+theorem c03_unmatchable_isolated (resp custom resp' custom' : List Tp) (p : String) (acts : List Action)
+    (ev : Event) (hrm : (resp ++ custom).Perm (⟨.nosource p, acts⟩ :: (resp' ++ custom'))) :
+    (Loc.nosource p).matches ev = false ∧
+    ((Loc.nosource p).check ev = none ↔ PyX.basename ev.path = p) ∧
+    (fired (install resp custom) ev).Perm (fired (install resp' custom') ev) := by
+  refine ⟨matches_nosource p ev, by rw [check_nosource, fileOf_basename], ?_⟩
+  unfold fired
+  rw [firedAt_cfg, firedAt_cfg]
+  apply List.Perm.filter
+  refine (c03_exact resp custom ev).trans (((configuredAt_perm hrm ev).trans ?_).trans (c03_exact resp' custom' ev).symm)
+  unfold configuredAt selTp
+  simp [List.filter_cons, matches_nosource]
+
 /-! ### streams and threads -/
 
 /-- **stream lift** — over a whole stream (from the unset slot) the actions that ran are, event by event and in
@@ -203,7 +221,10 @@ example :
       ⟨"line", "/x/a.py", 3, "f", 0, 0, [], []⟩ = [⟨0, .snapshot⟩, ⟨2, .metric⟩, ⟨4, .log⟩] ∧
     fired (install [⟨.line "a.py" 3, [⟨0, .snapshot⟩]⟩] []) ⟨"return", "/x/a.py", 3, "f", 0, 0, [], []⟩ = [] ∧
     fired (install [⟨.func "b.py" "f", [⟨3, .span⟩]⟩] []) ⟨"call", "/x/a.py", 1, "f", 0, 0, [], []⟩ = [] ∧
-    fired (install [⟨.func "b.py" "f", [⟨3, .span⟩]⟩] []) ⟨"call", "/y/b.py", 1, "f", 0, 0, [], []⟩ = [⟨3, .span⟩] := by
+    fired (install [⟨.func "b.py" "f", [⟨3, .span⟩]⟩] []) ⟨"call", "/y/b.py", 1, "f", 0, 0, [], []⟩ = [⟨3, .span⟩] ∧
+    -- a tracepoint that cannot be matched, before and after ordinary ones on the same file
+    fired (install [⟨.nosource "a.py", [⟨5, .span⟩]⟩, ⟨.line "a.py" 3, [⟨0, .snapshot⟩]⟩] [⟨.nosource "a.py", [⟨6, .log⟩]⟩,
+        ⟨.line "a.py" 3, [⟨4, .log⟩]⟩]) ⟨"line", "/x/a.py", 3, "f", 0, 0, [], []⟩ = [⟨0, .snapshot⟩, ⟨4, .log⟩] := by
   decide
 
 end C03
